@@ -27,6 +27,9 @@ type Worker struct {
 	// Progress is bumped by monitors; the hang certifier requires it to be
 	// unchanged between two snapshots.
 	Progress atomic.Int64
+	// HangDiag, when set by Exec, is asked first when the watchdog fires
+	// (e.g. for a livelock certificate from the event recorder).
+	HangDiag atomic.Value // func() *Result
 }
 
 // State keeps lazily-built per-worker objects (an open store, a live server).
@@ -225,6 +228,12 @@ func signature(gs []Goroutine) string {
 // diagnoseHang decides between deadlock (violated, with the dump as witness)
 // and inconclusive.
 func (w *Worker) diagnoseHang(c Case) Result {
+	if f, ok := w.HangDiag.Load().(func() *Result); ok && f != nil {
+		if r := f(); r != nil {
+			fmt.Fprintf(os.Stderr, "#### HANG DIAGNOSIS (custom) case %d: %s\n%s\n", c.ID, r.Msg, dumpAll())
+			return *r
+		}
+	}
 	p1 := w.Progress.Load()
 	d1 := dumpAll()
 	time.Sleep(3 * time.Second)
